@@ -14,14 +14,15 @@ Requests:
   BREAK tc usememo graph ainfo keys(labeled) keys(evidence)  ->  ERR | OK graph keys keys   (tc: TRUE child short-cut also in the evidence pass)
   BREAKEV tc usememo graph ainfo evm keys(labeled) keys(evidence) -> ERR | OK graph keys keys  (evm := n (node 0|1)*  = lookup_evidence of the source)
   VBREAK graphF graphD npairs (key key)*                  ->  0 | 1
+  VBREAKEV graphF graphD epairs lpairs nevs (key 0|1)* ngroups (m id1..idm)*  ->  0 | 1
   CLARK force graph weights ads names                     ->  atomcount clausecount clauses weights ads names
   VCLARK graph ads clauses                                ->  0 | 1
 """
 
 EXTRACT_V = """Require Extraction. Require ExtrOcamlBasic.
-From PL.C09 Require Import BoolGraph ClarkBase GenClark CyclesModel CyclesEvModel Validate.
+From PL.C09 Require Import BoolGraph ClarkBase GenClark CyclesModel CyclesEvModel Validate ValidateEv.
 Extraction Language OCaml.
-Extraction "oracle.ml" break_cycles_m break_cycles_ev_m validate_break validate_clark clarks_completion cnf_empty.
+Extraction "oracle.ml" break_cycles_m break_cycles_ev_m validate_break validate_break_ev validate_clark clarks_completion cnf_empty.
 """
 
 DRIVER_ML = r"""
@@ -98,6 +99,13 @@ let handle line =
         let f = rgraph () in let d = rgraph () in
         let ps = rlist (fun () -> let a = rkey () in let c = rkey () in (a, c)) in
         Buffer.add_string b (if validate_break f d ps then "1" else "0")
+      | "VBREAKEV" ->
+        let f = rgraph () in let d = rgraph () in
+        let rpairs () = rlist (fun () -> let a = rkey () in let c = rkey () in (a, c)) in
+        let ep = rpairs () in let lp = rpairs () in
+        let evs = rlist (fun () -> let k = rkey () in let v = rbool () in (k, v)) in
+        let groups = rlist (fun () -> rlist rn) in
+        Buffer.add_string b (if validate_break_ev f d ep lp evs groups then "1" else "0")
       | "CLARK" ->
         let force = rbool () in let g = rgraph () in let w = rweights () in let ads = rads () in let nm = rnames () in
         let c = clarks_completion { f_nodes = g; f_weights = w; f_constraints = ads; f_names = nm } force cnf_empty in
